@@ -42,7 +42,7 @@ func (a Arch) String() string {
 		/* `amd64` is implicitly gnu-linux-amd64 */
 		return a.CPU
 	}
-	if (a.ABI == "any" || a.ABI == "") && cpuIsPlain {
+	if a.ABI == "any" && cpuIsPlain {
 		/* `kfreebsd-amd64`, `linux-any`, `any-amd64` */
 		return a.OS + "-" + a.CPU
 	}
